@@ -1,4 +1,208 @@
-import BioCantor.Model.Aggregates
+/-
+  C20 — gene and collection aggregates are the stated functions of their children.
+
+  Property theorems only (helper lemmas: Proofs/Agg*.lean).  `Model.Agg.*` mirrors gene/interval.py
+  (`_find_primary_feature`), gene/gene.py, gene/feature.py and gene/collections.py on parent-less objects;
+  `Spec.Agg.ok*` are the reference predicates the spec driver evaluates on the real library's answers;
+  `ansA` = the observable answer (`none` = raised).  Child lists are of ARBITRARY length.
+
+  Two variants of the flag test are modelled: `Rule.asCoded` (`if primary_feature:` — what /repo does today) and
+  `Rule.repaired` (`if primary_feature is not None:`).
+-/
+import BioCantor.Proofs.AggMerged
 namespace BioCantor.Props.C20
-theorem stub : True := trivial
+open BioCantor BioCantor.Spec BioCantor.Spec.Agg BioCantor.Model.Agg BioCantor.Proofs BioCantor.Proofs.Agg
+
+/-- T1 (repaired flag test): `GeneInterval(transcripts)` for EVERY child list — refused when empty or when more
+    than one child is flagged; otherwise span = (min start, max end), coding ⇔ some child is coding, the primary
+    transcript is the flagged child, or else the lexicographic argmax of (CDS size, spliced length) with the
+    EARLIEST index (stability of Python's sort), and `get_primary_cds` is that member's CDS. -/
+theorem gene_spec (cs : List Child) : okGene cs (ansA (mkGeneWith Rule.repaired cs)) = true :=
+  gene_ok cs
+
+/- FULL STATEMENT for the code as it is (does NOT hold — F-C20b, witness below):
+     ∀ cs, okGene cs (ansA (mkGeneWith Rule.asCoded cs)) = true
+   Proved part: every child list in which no FLAGGED child has spliced length 0. -/
+
+/-- T1 for the code as written, when no flagged child has length 0. -/
+theorem gene_spec_asCoded_partial (cs : List Child) (h : ∀ c ∈ cs, c.primary = true → c.len ≠ 0) :
+    okGene cs (ansA (mkGeneWith Rule.asCoded cs)) = true := by
+  rw [gene_coded_eq cs h]; exact gene_ok cs
+
+/-- F-C20b witness: a flagged zero-length transcript followed by a second flagged transcript is accepted by the
+    code as written (the second becomes primary); the property demands a refusal, which the repaired test gives. -/
+theorem f_c20b_witness :
+    ansA (mkGeneWith Rule.asCoded
+      [⟨.plus, true, (3, 3), [], none, []⟩, ⟨.plus, true, (0, 4), [], none, []⟩]) =
+      some ⟨0, 4, false, 1, none⟩ ∧
+    okGene [⟨.plus, true, (3, 3), [], none, []⟩, ⟨.plus, true, (0, 4), [], none, []⟩] (some ⟨0, 4, false, 1, none⟩) = false ∧
+    ansA (mkGeneWith Rule.repaired
+      [⟨.plus, true, (3, 3), [], none, []⟩, ⟨.plus, true, (0, 4), [], none, []⟩]) = none := by
+  decide
+
+/-- T2 (repaired flag test): `FeatureIntervalCollection(feature_intervals)` for every child list — span, primary
+    feature (flag, else longest spliced length, else earliest), feature types = the union of the children's types. -/
+theorem fcoll_spec (cs : List Child) : okFcoll cs (ansA (mkFcollWith Rule.repaired cs)) = true :=
+  fcoll_ok cs
+
+/-- T2 for the code as written, when no flagged child has length 0. -/
+theorem fcoll_spec_asCoded_partial (cs : List Child) (h : ∀ c ∈ cs, c.primary = true → c.len ≠ 0) :
+    okFcoll cs (ansA (mkFcollWith Rule.asCoded cs)) = true := by
+  rw [fcoll_coded_eq cs h]; exact fcoll_ok cs
+
+/-- T3: `get_merged_transcript` (children on ONE strand, valid blocks, gene_type set): a plus-strand feature
+    whose blocks are valid and cover exactly the union of all children's blocks (every position, unbounded).
+    The union step is `Model.unionWithSingle` (location_impl.py, shared with C02). -/
+theorem merged_transcript_spec (cs : List Child) (st : Strand) (hne : cs ≠ [])
+    (hst : ∀ c ∈ cs, c.strand = st) (hv : ∀ c ∈ cs, ∀ b ∈ c.blocks, b.1 ≤ b.2) :
+    okMergedAll cs (ansA (mergedTranscript true cs)) = true := by
+  have hne' : (cs.flatMap fun c => singlesOf c.strand c.blocks) ≠ [] := by
+    obtain ⟨c, rest, rfl⟩ := List.exists_cons_of_ne_nil hne
+    simp only [List.flatMap_cons]
+    intro h
+    have := List.append_eq_nil_iff.mp h
+    have hc : singlesOf c.strand c.blocks ≠ [] := by
+      unfold singlesOf Child.blocks
+      cases c.bs with
+      | nil => simp
+      | cons b bs => simp only [ne_eq, List.map_eq_nil_iff]; exact sortBlocks_ne_nil _ (List.cons_ne_nil _ _)
+    exact hc this.1
+  obtain ⟨out, ho, hone, hov, hoc⟩ := produceMerged_ok _ st hne'
+    (by intro x hx
+        simp only [List.mem_flatMap] at hx
+        obtain ⟨c, hc, hx⟩ := hx
+        rw [(singlesOf_mem hx).1]; exact hst c hc)
+    (by intro x hx
+        simp only [List.mem_flatMap] at hx
+        obtain ⟨c, hc, hx⟩ := hx
+        exact hv c hc _ (singlesOf_mem hx).2)
+  unfold mergedTranscript okMergedAll okMergedBlocks
+  rw [ho]
+  simp only [ansA_ok, beq_self_eq_true, Bool.true_and, hov, Bool.and_eq_true, Bool.not_eq_true', List.isEmpty_eq_false_iff]
+  refine ⟨hone, sameCover_of_forall fun q => ?_⟩
+  rw [hoc, List.map_flatMap]
+  exact flatMap_cover _ _ cs q (fun c _ => singlesOf_cover c.strand c.blocks q)
+
+/-- T3b: `FeatureIntervalCollection.get_merged_feature`, same statement. -/
+theorem merged_feature_spec (cs : List Child) (st : Strand) (hne : cs ≠ [])
+    (hst : ∀ c ∈ cs, c.strand = st) (hv : ∀ c ∈ cs, ∀ b ∈ c.blocks, b.1 ≤ b.2) :
+    okMergedAll cs (ansA (mergedFeature cs)) = true :=
+  merged_transcript_spec cs st hne hst hv
+
+/-- T3c: `get_merged_cds`: refused exactly when no transcript is coding, else the union of the CDS blocks. -/
+theorem merged_cds_spec (cs : List Child) (st : Strand)
+    (hst : ∀ c ∈ cs, c.strand = st) (hv : ∀ c ∈ cs, ∀ l, c.cds = some l → l ≠ [] ∧ ∀ b ∈ l, b.1 ≤ b.2) :
+    okMergedCds cs (ansA (mergedCds true cs)) = true := by
+  unfold okMergedCds mergedCds
+  by_cases hcod : cs.any Child.coding = true
+  · have hne' : (cs.flatMap cdsSingles) ≠ [] := by
+      obtain ⟨c, hc, hcc⟩ := List.any_eq_true.mp hcod
+      intro h
+      have hall := List.flatMap_eq_nil_iff.mp h c hc
+      unfold Child.coding at hcc
+      cases hl : c.cds with
+      | none => rw [hl] at hcc; cases hcc
+      | some l =>
+        unfold cdsSingles at hall
+        rw [hl] at hall
+        simp only at hall
+        have hl' := (hv c hc l hl).1
+        unfold singlesOf at hall
+        match l, hl' with
+        | [b], _ => simp at hall
+        | a :: b :: r, _ =>
+          simp only [List.map_eq_nil_iff] at hall
+          exact sortBlocks_ne_nil _ (List.cons_ne_nil _ _) hall
+    obtain ⟨out, ho, hone, hov, hoc⟩ := produceMerged_ok _ st hne'
+      (by intro x hx
+          simp only [List.mem_flatMap] at hx
+          obtain ⟨c, hc, hx⟩ := hx
+          unfold cdsSingles at hx
+          cases hl : c.cds with
+          | none => rw [hl] at hx; cases hx
+          | some l => rw [hl] at hx; rw [(singlesOf_mem hx).1]; exact hst c hc)
+      (by intro x hx
+          simp only [List.mem_flatMap] at hx
+          obtain ⟨c, hc, hx⟩ := hx
+          unfold cdsSingles at hx
+          cases hl : c.cds with
+          | none => rw [hl] at hx; cases hx
+          | some l => rw [hl] at hx; exact (hv c hc l hl).2 _ (singlesOf_mem hx).2)
+    have hie : (cs.flatMap cdsSingles).isEmpty = false := by
+      simpa using hne'
+    simp only [hcod, if_true, hie, Bool.false_eq_true, if_false, ho, ansA_ok, okMergedBlocks, beq_self_eq_true,
+      Bool.true_and, hov, Bool.and_eq_true, Bool.not_eq_true', List.isEmpty_eq_false_iff]
+    refine ⟨hone, sameCover_of_forall fun q => ?_⟩
+    rw [hoc, List.map_flatMap]
+    unfold cdsBlocksOf
+    apply flatMap_cover _ _ cs q
+    intro c _
+    unfold cdsSingles
+    cases c.cds with
+    | none => rfl
+    | some l => exact singlesOf_cover c.strand l q
+  · have hie : (cs.flatMap cdsSingles).isEmpty = true := by
+      rw [List.isEmpty_iff, List.flatMap_eq_nil_iff]
+      intro c hc
+      have : c.coding = false := by
+        cases h : c.coding
+        · rfl
+        · exact absurd (List.any_eq_true.mpr ⟨c, hc, h⟩) hcod
+      unfold Child.coding at this
+      unfold cdsSingles
+      cases hl : c.cds with
+      | none => rfl
+      | some l => rw [hl] at this; cases this
+    simp only [hcod, Bool.false_eq_true, if_false, hie, if_true]
+    rfl
+
+/-- F-C20a in general: whenever two children (with valid blocks) lie on different strands, `get_merged_transcript`
+    / `get_merged_feature` raise (Location.union refuses) although the property asks for the union of the blocks. -/
+theorem merged_mixed_strands_raise (ht : Bool) (cs : List Child) (hv : ∀ c ∈ cs, ∀ b ∈ c.blocks, b.1 ≤ b.2)
+    (hmix : ∃ c ∈ cs, ∃ d ∈ cs, c.strand ≠ d.strand) :
+    ansA (mergedTranscript ht cs) = none ∧ okMergedAll cs (ansA (mergedTranscript ht cs)) = false := by
+  have h1 : ansA (mergedTranscript ht cs) = none := by
+    unfold mergedTranscript
+    apply produceMerged_mixed
+    · intro x hx
+      simp only [List.mem_flatMap] at hx
+      obtain ⟨c, hc, hx⟩ := hx
+      exact hv c hc _ (singlesOf_mem hx).2
+    · obtain ⟨c, hc, d, hd, hne⟩ := hmix
+      have hex : ∀ e ∈ cs, ∃ x ∈ (cs.flatMap fun c => singlesOf c.strand c.blocks), x.2 = e.strand := by
+        intro e he
+        refine ⟨(e.b0, e.strand) |> fun _ => ((singlesOf e.strand e.blocks).head (by
+          unfold singlesOf Child.blocks
+          cases e.bs with
+          | nil => simp
+          | cons b bs => simp only [ne_eq, List.map_eq_nil_iff]; exact sortBlocks_ne_nil _ (List.cons_ne_nil _ _))), ?_, ?_⟩
+        · exact List.mem_flatMap.mpr ⟨e, he, List.head_mem _⟩
+        · exact (singlesOf_mem (List.head_mem _)).1
+      obtain ⟨x, hx, hxs⟩ := hex c hc
+      obtain ⟨y, hy, hys⟩ := hex d hd
+      exact ⟨x, hx, y, hy, by rw [hxs, hys]; exact hne⟩
+  exact ⟨h1, by rw [h1]; rfl⟩
+
+/-- T4: `AnnotationCollection(genes, feature_collections, start, end)` — `len` counts genes and feature
+    collections, `is_empty` ⇔ no member, iteration = the chain genes ++ feature_collections sorted by start with
+    ties in chain order (stable), bounds = the explicit ones (both or neither; start ≤ end) or else
+    (min start, max end) of the members, none for an empty collection. -/
+theorem acoll_spec (genes fcs : List Member) (bnd : Option Nat × Option Nat) (hd : KeysDistinct (genes ++ fcs)) :
+    okAcoll genes fcs bnd (ansA (mkAcoll genes fcs bnd)) = true :=
+  acoll_ok genes fcs bnd hd
+
+/-- T4b: the iteration order on its own: sorted by start, a permutation, members of equal start in input order. -/
+theorem children_sorted_stable (ms : List Member) : isStableSortByStart ms (sortMembers ms) = true :=
+  stable_sortMembers ms
+
+-- non-vacuity of the hypotheses
+example : ∀ c ∈ ([⟨.minus, true, (0, 4), [(6, 6), (7, 9)], some [(1, 3)], []⟩, ⟨.minus, false, (3, 3), [], none, []⟩] : List Child),
+    c.primary = true → c.len ≠ 0 := by decide
+example : ∀ c ∈ ([⟨.minus, true, (0, 4), [(6, 6), (7, 9)], some [(1, 3)], []⟩, ⟨.minus, false, (3, 3), [], none, []⟩] : List Child),
+    c.strand = .minus ∧ (∀ b ∈ c.blocks, b.1 ≤ b.2) ∧ ∀ l, c.cds = some l → l ≠ [] ∧ ∀ b ∈ l, b.1 ≤ b.2 := by decide
+example : ∃ c ∈ ([⟨.plus, false, (1, 3), [], none, []⟩, ⟨.minus, false, (1, 4), [], none, []⟩] : List Child),
+    ∃ d ∈ ([⟨.plus, false, (1, 3), [], none, []⟩, ⟨.minus, false, (1, 4), [], none, []⟩] : List Child), c.strand ≠ d.strand := by decide
+example : KeysDistinct ([⟨true, 0, 5, 9⟩, ⟨true, 1, 0, 3⟩] ++ [⟨false, 0, 0, 9⟩]) := by
+  unfold KeysDistinct; decide
+
 end BioCantor.Props.C20
